@@ -59,7 +59,8 @@ class C13(Oracle):
 
     def swarm(self, rng):
         w = {
-            "doc": 1, "bundle": 3, "fbundle": 0, "add_ns": 4,
+            "doc": 1, "bundle": 3, "fbundle": rng.choice([0, 1, 2]), "add_bundle": rng.choice([0, 2]),
+            "add_ns": 4,
             "set_default": rng.choice([0, 1, 2]), "rec": 14, "add_attrs": 3,
             "set_time": 1, "add_type": 1,
             "export": 12, "eq": 2, "unified": 2, "flattened": 1,
